@@ -250,4 +250,5 @@ class Snapping(LaplaceTruncated):
         lambda_ = self._get_nearest_power_of_2(scale)
         laplace = scale * self._laplace_sampler(self._getrandbits(1), self._uniform_sampler())
         value_rounded = self._round_to_nearest_power_of_2(value_clamped + laplace, lambda_)
-        return self._reverse_scale_and_offset_value(self._truncate(value_rounded))
+        # Scaling back can round just past the bounds, so truncate to [lower, upper] once more
+        return super()._truncate(self._reverse_scale_and_offset_value(self._truncate(value_rounded)))
